@@ -427,8 +427,8 @@ def _run(ctx, libdir, rebound, ft, E, rng, tmpd):
                 "restart+continue+append for ~10 cuts per append")
     ctx.assumptions += [
         "writes reach the file in program order and a crash leaves a byte prefix of the write (the write order itself is observed with strace, not assumed)",
-        "crash_prefix_safe is proved for every cut offset over the chain layout / append_trace; restart_equiv only in its write part (restart_write); that the "
-        "repair walk selects that position and the no_spoof glue are covered by the sweep and the restart jobs, not proved",
+        "crash_prefix_safe and restart_equiv (under no_spoof) are proved for every cut offset of a single interrupted write on an intact archive; repeated "
+        "crash/restart cycles with stale tails are covered by the searcher only",
         "known open finding restart-spoofed-tail: crafted payload bytes defeat the corruption test (replayed on every run)",
         "torn writes below byte granularity, fsync / page-cache reordering, MPI file names: not covered",
     ]
